@@ -257,12 +257,7 @@ static long dfs(long jobIdx, const Job& job, std::vector<Decision>& dec, int bud
     Exec ex = execute(jobIdx, job, nullptr, nullptr, 0, 0, &dec);
     // worker steps start after the set-up; aliveBefore/current are indexed consistently for worker steps only
     long first = dec.empty() ? 0 : dec.back().step + 1;
-    long nsetup = (long)ex.executed.size() - (long)ex.executed.size();  // (unused)
-    (void)nsetup;
-    // ex.current has one entry per worker step executed under the DFS policy (not the final drain)
-    std::size_t off = ex.aliveBefore.size() - 0;
-    (void)off;
-    // positions of worker steps inside aliveBefore: the set-up steps come first
+    // ex.current has one entry per worker step; in aliveBefore the steps of the set-up thread come first
     long setupSteps = 0;
     while (setupSteps < (long)ex.executed.size() && ex.executed[setupSteps] == 0) setupSteps++;
     for (long wk = first; wk < (long)ex.current.size(); wk++) {
